@@ -475,8 +475,41 @@ def rule_leaf(repo: Repo) -> RuleResult:
     return r
 
 
+def rule_missing(repo: Repo, rid: str = "C12.missing") -> RuleResult:
+    """reading the state into an expression: every fluent leaf gets the value the STATE gives it, or 0 when the state does not mention it --
+    never a value the tree still holds from an earlier evaluation (in another state)"""
+    r = RuleResult(rid, "set_expression_value stores the state's value of the fluent, or the constant 0 for a fluent the state does not mention",
+                   "conditions and effects are evaluated on the current values of the fluents (an absent fluent reads as 0)")
+    f = L.fn(repo, f"{NE}::set_expression_value")
+    p = L.prov(repo, f)
+    node_param = f.params[0]
+    state_param = f.params[1] if len(f.params) > 1 else None
+    stores = [c for c in L.calls_in(f.node) if isinstance(c.func, ast.Attribute) and c.func.attr == "set_value" and len(c.args) == 1]
+    if not stores or state_param is None:
+        raise AnalysisError("set_expression_value: no set_value(..) store of a fluent value found")
+    from_state = False
+    for c in stores:
+        r.site(L.site(f, c, "fluent value"))
+        tr = p.trace(c.args[0])
+        stale = sorted(x for x in tr if x[0] == f"param:{node_param}")
+        other = sorted(x for x in tr if not (x[0] == f"param:{state_param}" or x[0] in ("const:0", "const:0.0") or x[0] == f"param:{node_param}"
+                                             or (x[0].startswith("param:") and "askey" in x)))
+        if any(x[0] == f"param:{state_param}" for x in tr):
+            from_state = True
+        if stale:
+            r.fail(Finding(rid, f, "stale-value", f"{unparse(c, 60)} can store a value taken from the expression tree itself ({stale[0][:4]}..): a fluent that the state "
+                           f"does not mention keeps the value of an earlier evaluation instead of 0", node=c))
+        elif other:
+            r.fail(Finding(rid, f, "value-source", f"{unparse(c, 60)} stores a value that is neither the state's nor the constant 0: {other[0][:4]}", node=c))
+        else:
+            r.ok({"store": unparse(c, 60)})
+    if not from_state:
+        r.fail(Finding(rid, f, "state-not-read", "no stored value comes from the state's fluents"))
+    return r
+
+
 def rules(repo: Repo, tier: str) -> List[RuleResult]:
     from . import c13
     return [c13.rule_round(repo, "C12.round", ["NumericalExpressionTree.to_pddl", "NumericalExpressionTree.to_mathematical"]),
             c13.rule_digits(repo, "C12.digits", (NE,)), rule_arith(repo), rule_compare(repo), rule_assign(repo), rule_order(repo), rule_env(repo), rule_tables(repo),
-            rule_leaf(repo)]
+            rule_leaf(repo), rule_missing(repo)]
